@@ -200,6 +200,9 @@ def run_unit(tpl_path, rlimit=None, keep_dir=None, extra_args=(), timeout=900):
                                     rendered=dgn.get("rendered", ""), record=rec))
     res["canary"] = dict(expected=sorted(canary_names), failed_as_expected=sorted(canary_failed),
                          passed_unexpectedly=sorted(canary_names - canary_failed))
+    if "panicked at" in p.stderr or "Internal Verus Error" in p.stderr:
+        mm = re.search(r"(Internal Verus Error[^\n]*|panicked at[^\n]*)", p.stderr)
+        res["tool_errors"].append("verus crashed: %s" % (mm.group(1)[:300] if mm else ""))
     if j is None and not res["failures"] and not res["tool_errors"]:
         res["tool_errors"].append("verus produced no JSON (exit %s): %s" % (p.returncode, p.stderr[-500:]))
     # resource-limit failures show up as function success=false without a semantic diagnostic
@@ -236,4 +239,11 @@ if __name__ == "__main__":
     slow = sorted(((v["time_ms"] or 0, k) for k, v in r["functions"].items()), reverse=True)[:5]
     print("slowest:", slow)
     if "-v" in sys.argv:
-        print(r.get("raw_stderr", "")[-4000:])
+        for line in r.get("raw_stderr", "").splitlines():
+            if line.startswith("{"):
+                try:
+                    dd = json.loads(line)
+                    if dd.get("level") == "error" and "vp_canary" not in dd.get("rendered", ""):
+                        print(dd.get("rendered", "")[:1500])
+                except Exception:
+                    pass
